@@ -52,6 +52,7 @@ type Sched struct {
 	last        *Thread
 	Horizon     time.Duration // virtual time after which an idle system is considered finished/hung
 	MaxSteps    int
+	Demote      string // name of a thread that is scheduled only when nothing else is enabled
 	Diverged    string // non-empty: the replay prefix did not fit (harness error)
 	Hung        bool   // nothing enabled, harness unfinished, horizon reached
 	pendingName map[uint64]string
@@ -235,6 +236,18 @@ func (s *Sched) Run(wait func(), finished func() bool, mon func()) {
 				copy(en[1:i+1], en[0:i])
 				en[0] = th
 				break
+			}
+		}
+		// starvation schedule: the demoted thread goes last, i.e. it runs only when nothing
+		// else can (priority-lowered schedule; replayable like any other since the canonical
+		// order is a function of the enabled set and Demote)
+		if s.Demote != "" && len(en) > 1 {
+			for i, th := range en {
+				if th.Name == s.Demote {
+					copy(en[i:], en[i+1:])
+					en[len(en)-1] = th
+					break
+				}
 			}
 		}
 		choice := 0
